@@ -80,6 +80,7 @@ OPERANDS = {
     'nested-ok-outer': [[1, 2], [3, 4], [5, 6]], 'nested-bad': [[1, 2, 3], [4, 5, 6]], 'nested-size-n-col': [[1], [2], [3]], 'nested-size-n-row': [[1, 2, 3]],
     'np-ok': np.array([7.0, 8.0, 9.0]), 'np-short': np.array([1.0]), 'np-2d': np.ones((3, 2)), 'np-int-ok': np.array([1, 2, 3]),
     'list-str-ok': ['a', 'b', 'c'], 'tuple-str-ok': ('ab', 'cd', 'ef'), 'list-bool-ok': [True, False, True],
+    'range-one': range(1), 'range-long': range(4), 'tuple-one': (9.0,), 'list-one': [9.0], 'np-one': np.array([9.0]),
 }
 
 
@@ -119,6 +120,9 @@ def op_alphabet():
         ops.append(('setattr', 'A', v))
         ops.append(('setitem', 'A', v))
     ops += [('add_variable', 'A', 'int'), ('add_variable', 'D', 'int', float), ('add_variable', 'S', 'str'), ('add_variable', 'K', 'bool')]
+    # sequences of the wrong length in every spelling (a one-element sequence must not be spread over the series like a scalar)
+    for v in ('range-one', 'range-long', 'tuple-one', 'list-one', 'np-one'):
+        ops += [('setattr', 'A', v), ('setitem', 'A', v), ('add_variable', 'B', v), ('replace_values', 'A', v)]
     ops += [('setattr', 'A', 'np-short'), ('setattr', 'A', 'list-long'), ('setattr', 'Zz', 'int'), ('setattr', 'a', 'int'), ('setitem', 'nope', 'int')]
     ops += [('setlabel', 'A', 1, 'float'), ('setlabel', 'A', 0, 'list-ok'), ('setslice', 'A', 0, 1, 'float'), ('setslice', 'A', 0, 2, 'list-ok'),
             ('setslice', 'A', 1, 2, 'list-ok'), ('setslice', 'A', 2, 0, 'float')]
@@ -229,6 +233,10 @@ class Histories(BoundedCheck):
                     out.append(Violation('with strict=True updates of existing names keep working', 'c09.strict-blocks-existing', here, 'accepted', str(raised)[:80]))
             else:
                 res.cover('ok')
+                if op[0] in ('setattr', 'setitem', 'add_variable', 'replace_values') and len(op) > 2 and op[2] in ('range-one', 'range-long', 'tuple-one', 'list-one', 'list-short', 'list-long') \
+                        and (op[1] in index_before or op[0] == 'add_variable'):
+                    out.append(Violation('a single-variable assignment of the wrong length raises and leaves every series unchanged', f'c09.wrong-length-accepted:{op[0]}:{op[2]}', here,
+                                         'DimensionError', 'accepted', 'raises_unchanged'))
                 if op[0] in ('setitem', 'setlabel', 'setslice', 'replace_values') and op[1] not in index_before:
                     out.append(Violation('a single-variable assignment to an unknown name raises and leaves every series unchanged', f'c09.unknown-name-accepted:{op[0]}',
                                          here, 'KeyError', 'accepted', 'unknown_name_raises_KeyError'))
@@ -432,13 +440,13 @@ class CopyIndependence(BoundedCheck):
     props = ('C11',)
     bound_quick = 'VectorContainer, parser-built model, linker with two submodels, Alias+Tracer model; 3 copy routes; 14 mutations applied to either side after 0..2 preceding operations (incl. a traced solve); sibling instances and class attributes'
     bound_thorough = 'as quick with 3 preceding operations and random mutation sequences of length 4'
-    required_covers = ('copy', 'copy.copy', 'deepcopy', 'sibling', 'traced')
+    required_covers = ('copy', 'copy.copy', 'deepcopy', 'sibling', 'traced', 'copy-after-an-earlier-copy')
 
     KINDS = ('container', 'model', 'linker', 'mixin')
 
     def cases(self, tier, seed):
         for kind in self.KINDS:
-            for route in ('copy', 'copy.copy', 'deepcopy', 'sibling'):
+            for route in ('copy', 'copy.copy', 'deepcopy', 'sibling', 'copy-after-an-earlier-copy'):
                 for pre in (0, 1, 2):
                     for side in ('original', 'other'):
                         yield {'kind': kind, 'route': route, 'pre': pre, 'side': side}
@@ -459,6 +467,8 @@ class CopyIndependence(BoundedCheck):
             return Model(list(range(5)), G=1.0, a=0.5), Model
         if kind == 'linker':
             lk = fsic.BaseLinker({'A': Model(list(range(5)), G=1.0, a=0.5), 'B': Model(list(range(5)), G=2.0, a=0.25)})
+            lk.model = ['scenario-1']            # attributes whose names happen to be fragments of 'submodels'
+            lk.sub = {'k': 1}
             return lk, type(lk)
 
         class Mixed(AliasMixin, TracerMixin, Model):
@@ -541,7 +551,16 @@ class CopyIndependence(BoundedCheck):
                 obj.check.append('G')
                 obj.lags = 3
             obj.note = ['ad hoc']
-        if route == 'copy':
+        if route == 'copy-after-an-earlier-copy':
+            # the object was copied before and has changed since: the new copy is a copy of the object as it is now, and shares nothing with the earlier one
+            earlier = obj.copy()
+            obj.__dict__['_' + obj.index[0]][0] = 42
+            obj.add_attribute('later', [1])
+            other = copy.copy(obj)
+            if any(v is w for v in other.__dict__.values() for w in earlier.__dict__.values() if isinstance(v, (np.ndarray, list, dict))):
+                res.cover('shared-with-earlier-copy')
+                other.__dict__['__shared_with_earlier_copy__'] = True
+        elif route == 'copy':
             other = obj.copy()
         elif route == 'copy.copy':
             other = copy.copy(obj)
@@ -566,6 +585,10 @@ class CopyIndependence(BoundedCheck):
             warnings.simplefilter('ignore')
             obj, other = self.build_pair(case, res)
             jcase = dict(case, mutation=mname)
+            if other.__dict__.pop('__shared_with_earlier_copy__', False):
+                out.append(Violation('a copy shares no mutable state with the original or with any other copy (copies taken one after the other are separate)',
+                                     'c11.shared-with-earlier-copy', jcase, 'separate', 'shared'))
+                return out
             if route != 'sibling':
                 if type(other) is not type(obj):
                     out.append(Violation('a copy is an object of the same class', 'c11.class', jcase, type(obj).__name__, type(other).__name__))
